@@ -102,6 +102,18 @@ FIXED = [
     "<math><mrow intent='binomial($n,$k)'><mo>(</mo><mfrac linethickness='0'><mi arg='n'>n</mi><mi arg='k'>k</mi></mfrac><mo>)</mo></mrow></math>",
     "<math><mrow><mi>x</mi><mo>&#x2026;</mo><mi>y</mi><mo>&#x22EF;</mo><mi>z</mi></mrow></math>",
     "<math><mrow><mo>&#x230A;</mo><mi>x</mi><mo>&#x230B;</mo><mo>+</mo><mo>&#x2308;</mo><mi>y</mi><mo>&#x2309;</mo><mo>+</mo><mo>&#x2016;</mo><mi>v</mi><mo>&#x2016;</mo></mrow></math>",
+    # numbers written with either decimal mark, small enough to look like 'common' fractions / ordinals to the rules (appended: indexes above are used elsewhere)
+    "<math><mfrac><mn>1.5</mn><mn>2</mn></mfrac></math>",
+    "<math><mfrac><mn>3</mn><mn>2.5</mn></mfrac></math>",
+    "<math><mfrac><mn>0.5</mn><mn>10</mn></mfrac></math>",
+    "<math><mfrac><mn>1.000</mn><mn>3</mn></mfrac></math>",
+    "<math><mfrac><mn>1,5</mn><mn>2</mn></mfrac></math>",
+    "<math><mfrac><mn>3</mn><mn>2,5</mn></mfrac></math>",
+    "<math><mrow><mn>2</mn><mo>&#x2064;</mo><mfrac><mn>1.5</mn><mn>4</mn></mfrac></mrow></math>",
+    "<math><mrow><mn>2</mn><mfrac><mn>1,5</mn><mn>4</mn></mfrac></mrow></math>",
+    "<math><msup><mi>x</mi><mfrac><mn>1.5</mn><mn>2</mn></mfrac></msup></math>",
+    "<math><mrow><msup><mi>x</mi><mn>2.5</mn></msup><mo>+</mo><msup><mi>y</mi><mn>2,5</mn></msup><mo>+</mo><mroot><mi>z</mi><mn>3.5</mn></mroot><mo>+</mo><msub><mi>a</mi><mn>1.5</mn></msub></mrow></math>",
+    "<math><mrow><mn>1.5</mn><mo>&#xD7;</mo><mn>2,5</mn><mo>=</mo><mn>3.750</mn><mo>&#x2260;</mo><mn>1.234,5</mn></mrow></math>",
 ]
 
 
